@@ -41,6 +41,7 @@ NEGS = [
     ("NEG_KnuthPlass_DevKernSign.cfg", "deviation break_width_kern_sign refines TeX"),
     ("NEG_KnuthPlass_DevNoDiscard.cfg", "deviation break_width_keeps_discardables refines TeX"),
     ("NEG_KnuthPlass_DevNoCap.cfg", "deviation threshold_not_capped_at_inf_bad refines TeX"),
+    ("NEG_KnuthPlass_DevScanRun.cfg", "deviation replacement_run_scanned_for_breaks refines TeX"),
 ]
 
 ACTIONS = ["Pass", "TryBreak", "Finish"]
@@ -230,10 +231,10 @@ def run(ctx):
     else:
         jobs = [
             ("KnuthPlass.badness_sweep", ["c04-sweep", "step=1"], 2),
-            ("KnuthPlass.exhaustive", ["c04-exh", "maxlen=4", "level=0"], 6),
+            ("KnuthPlass.exhaustive", ["c04-exh", "maxlen=5", "level=0"], 10),
             ("KnuthPlass.exhaustive_full_alphabet", ["c04-exh", "maxlen=3", "level=1"], 8),
-            ("KnuthPlass.random", ["c04-rand", f"seed={ctx.seed}", "n=120000", "breaks=8"], 10),
-            ("KnuthPlass.random_long", ["c04-rand", f"seed={ctx.seed + 1}", "n=30000", "breaks=11"], 10),
+            ("KnuthPlass.random", ["c04-rand", f"seed={ctx.seed}", "n=250000", "breaks=8"], 10),
+            ("KnuthPlass.random_long", ["c04-rand", f"seed={ctx.seed + 1}", "n=80000", "breaks=12"], 10),
         ]
     def chain(*fs):
         for f in fs:
@@ -267,7 +268,7 @@ def run(ctx):
         "lists contain characters, ligatures, rules, boxes, kerns (explicit, font, accent, math), glue of all stretch "
         "orders, penalties and discretionaries whose replacement run holds boxes and font kerns; math nodes, marks, "
         "insertions, adjusts and whatsits are not generated (math has no width in ds::Math, whatsit is todo!()); "
-        "an explicit kern inside a replacement run is not generated (TeX skips the run, the code scans it)",
+        "replacement runs may end in an explicit kern (TeX 1121 admits kerns in discretionary lists)",
         "dimensions are kept below 2^28 so that every sum fits 32 bits; a panic of the breaker is an event no "
         "specification accepts",
         "ties: any sequence with the optimal <<lines, demerits>> is accepted; with looseness the base line count may "
@@ -321,33 +322,38 @@ def selftest(ctx):
     n, bad = validate_calls(ctx, "Trace_KnuthPlass", "Trace_KnuthPlass.cfg", ev, parts=2)
     badset = {json.dumps(e, sort_keys=True) for e, _ in bad}
     good = [e for e in read_ndjson(ev) if json.dumps(e, sort_keys=True) not in badset]
-    solved = [e for e in good if e["res"]["k"] == "brk" and len(e["res"]["brk"]) >= 2 and len(e["log"]) >= 4]
-    failed = [e for e in good if e["res"]["k"] == "none"]
+    # not the final pass: its artificial-demerits records (854) are exempt from the record check
+    solved = [e for e in good if e["res"]["k"] == "brk" and len(e["res"]["brk"]) >= 2 and len(e["log"]) >= 4
+              and not e["final"]]
+    failed = [e for e in good if e["res"]["k"] == "none" and not e["final"]]
     if len(solved) < 10 or len(failed) < 5:
         raise ToolError("selftest: too few accepted events to corrupt")
-    muts = []
+    muts, kinds = [], []
 
-    def mut(e, f):
+    def mut(e, f, kind="?"):
         e = json.loads(json.dumps(e))
         f(e)
         muts.append(e)
+        kinds.append(kind)
 
     for e in solved[:10]:
-        mut(e, lambda x: x["res"]["brk"].pop(0))                       # drop the first break
-        mut(e, lambda x: x.__setitem__("res", {"k": "none"}))          # claim failure
-        mut(e, lambda x: x["log"][0].__setitem__("b", x["log"][0]["b"] + 1))
-        mut(e, lambda x: x["log"][0].__setitem__("d", x["log"][0]["d"] + 1))
-        mut(e, lambda x: [r for r in x["log"] if r["t"] == "an"][0].__setitem__("fc", ([r for r in x["log"] if r["t"] == "an"][0]["fc"] + 1) % 4))
-        mut(e, lambda x: [r for r in x["log"] if r["t"] == "an"][-1].__setitem__("td", [r for r in x["log"] if r["t"] == "an"][-1]["td"] - 1))
+        mut(e, lambda x: x["res"]["brk"].pop(0), "drop-first-break")
+        mut(e, lambda x: x.__setitem__("res", {"k": "none"}), "claim-failure")
+        mut(e, lambda x: x["log"][0].__setitem__("b", x["log"][0]["b"] + 1), "log-badness+1")
+        mut(e, lambda x: x["log"][0].__setitem__("d", x["log"][0]["d"] + 1), "log-demerits+1")
+        mut(e, lambda x: [r for r in x["log"] if r["t"] == "an"][0].__setitem__("fc", ([r for r in x["log"] if r["t"] == "an"][0]["fc"] + 1) % 4), "log-fitness")
+        mut(e, lambda x: [r for r in x["log"] if r["t"] == "an"][-1].__setitem__("td", [r for r in x["log"] if r["t"] == "an"][-1]["td"] - 1), "log-total-1")
     for e in failed[:5]:
-        mut(e, lambda x: x.__setitem__("res", {"k": "brk", "brk": [len(x["items"])]}))   # claim a one-line solution
+        mut(e, lambda x: x.__setitem__("res", {"k": "brk", "brk": [len(x["items"])]}), "claim-one-line-solution")
     mf = ctx.work / "mut.ndjson"
     mf.write_text("".join(json.dumps(e) + "\n" for e in muts))
     n2, bad2 = validate_calls(ctx, "Trace_KnuthPlass", "Trace_KnuthPlass.cfg", mf, parts=1)
     rejected = [v for _, v in bad2 if v["key"] not in SKIPS]
     log(f"[selftest] {len(muts)} corrupted events, {len(rejected)} rejected")
     if len(rejected) != len(muts):
-        raise ToolError(f"selftest: {len(muts) - len(rejected)} corrupted events were accepted")
+        hit = {v["l"] for v in rejected}
+        missed = [kinds[i] for i in range(len(muts)) if i + 1 not in hit]
+        raise ToolError(f"selftest: {len(muts) - len(rejected)} corrupted events were accepted: {missed}")
     for cfg, what in NEGS:
         tlc_expect_refuted("MC_KnuthPlass", cfg, what, workers=1, env=LEAN)
     log(f"[selftest] {len(NEGS)} negative controls refuted")
